@@ -33,6 +33,7 @@ def nested(depth):
 
 
 SEQ_SEP = "\x1e"
+CTL_HOLD, CTL_RELEASE, CTL_YIELD = "\x1fHOLD", "\x1fRELEASE", "\x1fYIELD"       # driver steps inside a pipelined sequence
 
 
 def junk_frames(uni, rnd, tier):
@@ -106,6 +107,11 @@ def junk_frames(uni, rnd, tier):
         seqs.append([["REQ", odd, {"kinds": [1]}]])
         seqs.append([["REQ", odd, {"kinds": [1]}], ["REQ", "jsub", {"kinds": [7]}], ["CLOSE", odd], ["REQ", odd, {"kinds": [1], "limit": 1}]])
     texts += [SEQ_SEP.join(J(f) for f in sq) for sq in seqs]
+    # a subscription closed (or replaced) again and again while its stored query is in the middle of its work: whatever a
+    # cancelled query holds (a slot, a connection, a cursor) must be given back - a dozen times over, then the probes
+    r_all = J(["REQ", "jsub", {"kinds": [1]}])
+    texts.append(SEQ_SEP.join([CTL_HOLD, r_all, CTL_YIELD, J(["CLOSE", "jsub"]), CTL_YIELD, CTL_RELEASE, CTL_YIELD] * 12))
+    texts.append(SEQ_SEP.join([CTL_HOLD, r_all, CTL_YIELD, J(["REQ", "jsub", {"kinds": [7]}]), CTL_YIELD, CTL_RELEASE, CTL_YIELD] * 12))
     # the same hostile (correctly signed) event many times over, and a run of different ones: whatever a single such event
     # costs the relay (a slot, a task, a lock, a queue entry) must not add up until later commands go unanswered
     bursts = []
@@ -166,7 +172,8 @@ def _worker(payload):
              ("msg", 1, {"m": "REQ", "sid": "w2", "fs": [{"tags": {"t": ["a"]}}]}), ("idle",),
              ("msg", 1, {"m": "REQ", "sid": "w3", "fs": [{"tags": {"e": ["p0"], "p": ["A"]}}, {"authors": ["B"], "tags": {"t": ["b"]}}]}), ("idle",)]
         if junk is not None:
-            s += [("msg", 0, {"m": "RAW", "text": part}) for part in junk.split(SEQ_SEP)] + [("idle",)]
+            ctl = {CTL_HOLD: ("hold",), CTL_RELEASE: ("release",), CTL_YIELD: ("yield", 8)}
+            s += [ctl.get(part) or ("msg", 0, {"m": "RAW", "text": part}) for part in junk.split(SEQ_SEP)] + [("idle",)]
         if zero_continues:
             s += [("msg", 0, {"m": "REQ", "sid": "p1", "fs": [{"tags": {"t": ["b"]}}]}), ("idle",), ("msg", 0, {"m": "EVENT", "e": "p0"}), ("idle",)]
         s += [("msg", 1, {"m": "EVENT", "e": "p1"}), ("idle",), ("msg", 1, {"m": "EVENT", "e": "p2"}), ("idle",)]
